@@ -352,7 +352,7 @@ class TexNode(object):
             \item Hello
         \end{itemize}
         """
-        self.expr.append(*nodes)
+        self.expr.append(*_exprs_of(nodes))
 
     def insert(self, i, *nodes):
         r"""Add node(s) to this node's list of children, at position i.
@@ -390,7 +390,7 @@ class TexNode(object):
             )
             node.parent = self
 
-        self.expr.insert(i, *nodes)
+        self.expr.insert(i, *_exprs_of(nodes))
 
     def char_pos_to_line(self, char_pos):
         r"""Map position in the original string to parsed LaTeX position.
@@ -585,7 +585,7 @@ class TexNode(object):
         \end{itemize}
         """
         holder = self._holder_of(child.expr)
-        holder.insert(holder.remove(child.expr), *nodes)
+        holder.insert(holder.remove(child.expr), *_exprs_of(nodes))
 
     def _holder_of(self, expr):
         """Argument group or expression of this node whose contents hold
@@ -621,6 +621,13 @@ class TexNode(object):
 ###############
 # Expressions #
 ###############
+
+
+def _exprs_of(nodes):
+    """Expressions of the given nodes, so that the tree holds expressions
+    only; other values (e.g., strings) are passed through."""
+    return [node.expr if isinstance(node, TexNode) else node
+            for node in nodes]
 
 
 class TexExpr(object):
